@@ -52,6 +52,9 @@ func (f *Expt) Call(s *slip.Scope, args slip.List, depth int) (result slip.Objec
 		if pow, ok2 := args[1].(slip.Fixnum); ok2 {
 			if 0 <= pow {
 				// An integer to a non-negative integer power is exact.
+				if base < -1 || 1 < base {
+					checkIntegerBits(s, depth, f, args, float64(pow)*float64(big.NewInt(int64(base)).BitLen()))
+				}
 				var z big.Int
 				z.Exp(big.NewInt(int64(base)), big.NewInt(int64(pow)), nil)
 				if z.IsInt64() {
